@@ -404,6 +404,16 @@ theorem C02_hyp_relabel_invariant {m1 m2 : Mesh} {ρ : List Nat} (hrel : Relabel
     {A B M : Nat} {c : List (List Int)} (hy : PointHypP t A B M m1 c) : PointHypP t A B M m2 c :=
   hrel.pointHypP hy
 
+/-- **Soundness of the decidable hypothesis on one data set.**  `Spec.baseHyp h f = true` (well-formed,
+    one block per type, a connected point exists, `pointHyp` = Sep ∧ Distinguishable of the stripped
+    mesh, `h` separates the cells of the point-sorted view) implies the Prop-level `BaseHyp` the
+    theorems below assume — with the margins `sepA`/`sepB` of the tolerances of `f`. -/
+theorem C02_base_hyp_sound {h : List Nat → Int} {f : MeshFields} (hb : baseHyp h f = true) :
+    BaseHyp h f (sepA (meshTolOf f.mesh)) (sepB (meshTolOf f.mesh))
+      (pointData (sepA (meshTolOf f.mesh)) (baseOf f).mesh).M
+      (pointData (sepA (meshTolOf f.mesh)) (baseOf f).mesh).cands :=
+  baseHyp_sound hb
+
 /-- **`sort_points ∘ strip_orphan_points` of a relabelled data set** (`BaseHyp` = WellFormed ∧ Sep ∧
     Distinguishable of the ONE underlying data set `f`): for every `argsort`, every point permutation
     `ρ` and all per-type cell permutations `κ`, `_permute` does not raise and returns `f` with its
